@@ -314,6 +314,23 @@ def cache_1(ctx, rep):
                     par = getattr(n, '_parent', None)
                     if isinstance(par, ast.Subscript) and par.value is n:
                         continue
+                    # the first level bound to a local (m = parser_cache[h]  /  m = parser_cache[h] = {}), second level
+                    # through that local: the same two-level access written in two steps
+                    if isinstance(par, ast.Assign):
+                        locals_ = [t.id for t in par.targets if isinstance(t, ast.Name)]
+                        if par.value is n or (n in par.targets and isinstance(par.value, ast.Dict) and not par.value.keys):
+                            if locals_:
+                                m = locals_[0]
+                                seconds = [x for x in walk_own(f.node) if isinstance(x, ast.Subscript)
+                                           and isinstance(x.value, ast.Name) and x.value.id == m]
+                                r1 = roles.role(f, n.slice)
+                                bad2 = [x for x in seconds if roles.role(f, x.slice) != 'PATH']
+                                n_acc += 1
+                                rep.ob('CACHE-1', rel, f.qual, '%s ... %s[<path>]' % (norm(n), m),
+                                       r1 == 'HASH' and bool(seconds) and not bad2,
+                                       'cache entry addressed by (%s, %s) instead of (grammar hash, path)'
+                                       % (r1, [roles.role(f, x.slice) for x in seconds]))
+                                continue
                     # allowed: parser_cache[key] = {...}  where key iterates parser_cache.items() itself
                     ok = False
                     if isinstance(n.ctx, ast.Store) and isinstance(n.slice, ast.Name):
